@@ -227,7 +227,10 @@ def bpm_fallback(bpms_str):
 
 def observe_display(sf, ch, ignore):
     try:
-        if ch is None:
+        if ignore is False and len(sf) % 2 == 0:
+            # the documented default: a DISPLAYBPM that is present is used
+            r = displaybpm(sf) if ch is None else displaybpm(sf, ch)
+        elif ch is None:
             r = displaybpm(sf, ignore_specified=ignore)
         else:
             r = displaybpm(sf, ch, ignore_specified=ignore)
